@@ -99,7 +99,7 @@ protected:
    /// @since  1.37.0, 18.06.2020
    void forward()
    {
-      if (static_cast< size_t>( mCurrPos) >= mpDynBitset->size())
+      if (mCurrPos >= static_cast< ssize_t>( mpDynBitset->size()))
          return;
       while ((static_cast< size_t>( ++mCurrPos) < mpDynBitset->size())
              && !mpDynBitset->test( mCurrPos))
